@@ -193,6 +193,22 @@ def parse_spec(s) -> Spec:
         inner = rest[:-1]
         if head in ("seq", "list", "tuple"):
             return Spec("seq", parse_spec(inner), {"seq": None, "list": False, "tuple": True}[head])
+        if head == "pair":
+            parts = []
+            depth = 0
+            cur = ""
+            for ch in inner:
+                if ch == "[":
+                    depth += 1
+                elif ch == "]":
+                    depth -= 1
+                if ch == "," and depth == 0:
+                    parts.append(cur)
+                    cur = ""
+                else:
+                    cur += ch
+            parts.append(cur)
+            return Spec("tupleof", tuple(parse_spec(p) for p in parts), True)
         if head == "opt":
             return Spec("opt", parse_spec(inner))
         if head == "set":
